@@ -37,6 +37,7 @@ KERNELS = [
 
 
 # ---------------- part 2: symmetry bookkeeping and the bin transforms of the symmetry operations ----------------
+HARNESS_I = os.path.join(VERIF, "harness", "c03i.c")
 HARNESS_B = os.path.join(VERIF, "harness", "c03b.c")
 REPO_ = os.environ.get("VERIF_REPO", "/repo")
 DS_INL = "src/include/stir/recon_buildblock/DataSymmetriesForBins_PET_CartesianGrid.inl"
@@ -97,7 +98,15 @@ for _c in OP_CLASSES:
                           c_header="void K_op_%s_bin(const struct OP* op, struct Bin* b)" % _c, loops=0,
                           rules=[(r"\bb\.(segment_num|view_num|axial_pos_num|tangential_pos_num|timing_pos_num)\(\)", r"b->\1", (1, 20)),
                                  (r"(?<![\w>.])(axial_pos_shift|view180|z_shift|q)\b", r"op->\1", (1, 20))]))
-KERNELS += KERNELS_B
+# image side of the 16 operation classes: transform_image_coordinates (c[1] = z, c[2] = y, c[3] = x)
+KERNELS_I = []
+for _c in OP_CLASSES:
+    KERNELS_I.append(dict(name="K_op_%s_img" % _c, file=OPS_INL, cxx_name="SymmetryOperation_PET_CartesianGrid_%s::transform_image_coordinates" % _c,
+                          func=r"SymmetryOperation_PET_CartesianGrid_%s::transform_image_coordinates\(BasicCoordinate<3, int>& c\) const" % _c,
+                          c_header="void K_op_%s_img(const struct OP* op, struct C3* c)" % _c, loops=0, contract_alias="K_op_img",
+                          rules=[(r"\bc\[1\]", "c->z", (1, 6)), (r"\bc\[2\]", "c->y", (0, 6)), (r"\bc\[3\]", "c->x", (0, 6)),
+                                 (r"(?<![\w>.])(z_shift|q)\b", r"op->\1", (1, 6))]))
+KERNELS += KERNELS_B + KERNELS_I
 
 
 def extra_gen(repo, gen_dir, metas):
@@ -142,6 +151,24 @@ def extra_gen(repo, gen_dir, metas):
         for c in OP_CLASSES:
             f.write("    case OP_%s: K_op_%s_bin(op, b); break;\n" % (c, c))
         f.write('    default: __CPROVER_assert(0, "unknown operation class"); break;\n    }\n}\n')
+    with open(os.path.join(gen_dir, "c03_img.c"), "w") as f:
+        f.write("/* generated: one enforce harness and one injectivity lemma per operation class (transform_image_coordinates) */\n")
+        for c in OP_CLASSES:
+            # the class NAME states the map (swap_<x part>_<y part>[_zq]: 'xmy' = x <- minus y, 'yx' = y <- x, 'zq' = z <- q - z): the contract
+            # of each class is generated from its name, the body must agree with it
+            toks = [] if c == "z_shift" else c[len("swap_"):].split("_")
+            known = {"xmx": ("x", "-X"), "xy": ("x", "Y"), "xmy": ("x", "-Y"), "ymy": ("y", "-Y"), "yx": ("y", "X"), "ymx": ("y", "-X"), "zq": ("z", "Q")}
+            spec = {"x": "X", "y": "Y", "z": "Z"}
+            for t in toks:
+                if t not in known or spec[known[t][0]] != known[t][0].upper():
+                    raise extract.ExtractionError("operation class name %s: token '%s' not understood" % (c, t))
+                spec[known[t][0]] = known[t][1]
+            ex = {"X": "__CPROVER_old(c->x)", "-X": "-__CPROVER_old(c->x)", "Y": "__CPROVER_old(c->y)", "-Y": "-__CPROVER_old(c->y)"}
+            zexp = "op->q - __CPROVER_old(c->z) + op->z_shift" if spec["z"] == "Q" else "__CPROVER_old(c->z) + op->z_shift"
+            f.write("#define CONTRACT_K_op_%s_img CONTRACT_K_op_img __CPROVER_ensures(c->x == %s && c->y == %s && c->z == %s)\n" % (c, ex[spec["x"]], ex[spec["y"]], zexp))
+            f.write('#include "K_op_%s_img.c"\n' % c)
+            f.write("void h_K_op_%s_img(void) { struct OP* o; struct C3* c; g_n = nondet_int(); K_op_%s_img(o, c); }\n" % (c, c))
+            f.write("void h_lemma_img_injective_%s(void) { LEMMA_IMG_INJECTIVE(K_op_%s_img); }\n" % (c, c))
     metas.append({"kernel": "operation classes", "file": OPS_INL, "function": "SymmetryOperation_PET_CartesianGrid_* (transform_bin_coordinates)", "values": OP_CLASSES})
     STATIC_FACTS[:] = ["cache_collection is indexed [view][segment] and keyed by cache_key(bin) at its single insert and single find site (syntactic scan)"]
 
@@ -174,6 +201,15 @@ def jobs(tier, gen_dir):
     out.append(Job("c03/canary/lemma_symmetry", HARNESS_B, "h_lemma_symmetry", kind="canary", kernels=[], defines={"LEMMA_CANARY": None}, flags=[], no_base_flags=True,
                    replace=["K_find_transform_z", "K_num_planes_per_axial_pos"],
                    expect_fail=r"vacuity canary", timeout=600, backend="kissat"))
+    for c in OP_CLASSES:
+        k = "K_op_%s_img" % c
+        out.append(Job("c03/" + k, HARNESS_I, "h_" + k, enforce=k, kernels=[k], flags=CH, no_base_flags=True, timeout=120, min_obligations=3, backend="kissat"))
+        out.append(Job("c03/lemma_img_injective/" + c, HARNESS_I, "h_lemma_img_injective_" + c, kind="lemma", kernels=[k], flags=CH, no_base_flags=True, timeout=120,
+                       min_obligations=1, backend="kissat", defines={"CONTRACTS_OFF": None}))
+    out.append(Job("c03/canary/K_op_swap_xy_yx_img", HARNESS_I, "h_K_op_swap_xy_yx_img", enforce="K_op_swap_xy_yx_img", kernels=["K_op_swap_xy_yx_img"], kind="canary",
+                   defines={"CANARY_K_op_swap_xy_yx_img": None}, expect_fail=r"K_op_swap_xy_yx_img\.postcondition", no_base_flags=True, timeout=120))
+    out.append(Job("c03/canary/lemma_img_injective", HARNESS_I, "h_lemma_img_injective_swap_xy_yx", kind="canary", kernels=[], defines={"LEMMA_CANARY": None, "CONTRACTS_OFF": None},
+                   flags=[], no_base_flags=True, expect_fail=r"vacuity canary", timeout=120))
     return out
 
 
